@@ -3,6 +3,9 @@
     inject <k> <intry|free> <vars|-> <program>   a foreign panic injected at evaluation step k of the C01-language program
     depth <L> <d> <leaf>            stack limit L, d nested script calls whose innermost enters further scopes (leaf kind)
     interrupt <shape>               a halting interrupt sent while a script spins
+    depthseq <L> <k> <script|host>  k caught stack overflows in one Run, the admitted nesting probed after each
+    reenter <k> <vars> <program>    a NON-panicking interrupt function delivered at step k that runs script on the
+                                    interrupted runtime (Run, Call, Eval): the program must go on unperturbed
 -/
 import OttoVerif.Base.Proto
 import OttoVerif.C01.Driver
@@ -63,6 +66,20 @@ def handle (ws : List String) : String :=
       let spec := if L = 0 ∨ d + x + 1 < L then "ok;rest:ok;follow:ok" else "RangeError;catchable;rest:ok;follow:ok"
       tok ++ " " ++ spec ++ " -"
     | _, _, _ => "bad-op"
+  | ["depthseq", l, k, _how] =>
+    -- k stack overflows caught one after the other inside ONE Run (by the script's try/catch or by a host
+    -- function swallowing Value.Call's error), each followed by a probe of how deep calls may nest
+    match l.toNat?, k.toNat? with
+    | some L, some k =>
+      let probe (j : Nat) : Nat := admitted L (runActs L (caughtOverflows L j) [0]).1
+      let model := String.intercalate "," ((List.range (k + 1)).map (fun j => toString (probe j)))
+      let spec := String.intercalate "," ((List.range (k + 1)).map (fun _ => toString (L - 1)))
+      model ++ ";rest:ok;follow:ok " ++ spec ++ ";rest:ok;follow:ok -"
+    | _, _ => "bad-op"
+  | ["reenter", _k, _vars, _prog] =>
+    -- Theorems.reenter_keeps_labels: the nested run starts from no pending labels, ends with none
+    -- (labels_rest_any_sem) and the pending ones are put back (fact poll_keeps_labels)
+    let t := "same;trace:same;rest:ok;follow:ok"; t ++ " " ++ t ++ " -"
   | ["interrupt", _shape, "free"] => "halted;rest:ok;follow:ok;again:halted halted;rest:ok;follow:ok;again:halted -"
   | ["interrupt", _shape, "intry"] => "halted-or-caught;rest:ok;follow:ok;again:halted halted;rest:ok;follow:ok;again:halted trycatch_foreign"
   | _ => "bad-op"
